@@ -8,7 +8,12 @@ from .. import asmsrc
 
 LEVEL = "other"
 
-ALLOW_COMMON = {"memcpy", "memset", "memmove", "explicit_bzero", "__errno_location"}
+# pure functions of their arguments (no hidden state): harmless for reentrancy whatever else they are wrong for
+PURE = {"memcmp", "bcmp", "memchr", "strlen", "strnlen", "strcmp", "strncmp", "abs", "labs"}
+ALLOW_COMMON = {"memcpy", "memset", "memmove", "explicit_bzero", "__errno_location"} | PURE
+# imports known to keep hidden process-wide state or to use the heap: a definite violation
+STATEFUL = {"rand", "srand", "random", "srandom", "strtok", "localtime", "gmtime", "ctime", "asctime", "getenv", "setenv", "setlocale", "strerror",
+            "printf", "fprintf", "puts", "fopen", "fclose", "fread", "fwrite", "atexit", "signal"}
 ALLOW = {
     "H": ALLOW_COMMON | {"getrandom"},
     "T-getentropy": ALLOW_COMMON | {"getentropy"},
@@ -77,6 +82,8 @@ def check_module(ck, mod, defined_anywhere, label):
                 elif c.op != "call" and any(o == ("f", name) for o in c.ops):
                     sites.append((f.name, c.where))
         ok = name in allow
+        if not ok and name not in HEAP and name not in STATEFUL and not any(name in a_ for a_ in ALLOW.values()):
+            raise Broken("import '%s' is neither in the allow-list of stateless imports nor in the list of known stateful / heap functions: its effect on reentrancy is not classified" % name)
         msg = "import '%s' is not in the allow-list for configuration %s%s" % (
             name, v, " (heap allocation)" if name in HEAP else "")
         if not sites:
